@@ -858,8 +858,11 @@ class GCodeBuilder(GCodeCore):
         args = { **params, "X": move.x, "Y": move.y, "Z": move.z }
         statement = self._get_statement(mode, args, comment)
 
-        # Set position to unknown for any axis involved
+        # The probe may travel all the way to the target, which has
+        # to be allowed. After that, set position to unknown for any
+        # axis involved
 
+        self._validate_move(target_axes, params)
         target_axes = target_axes.mask(move.x, move.y, move.z)
 
         # Track parameters and write the statement
